@@ -5,8 +5,10 @@ import (
 	"math/big"
 
 	errorsmod "cosmossdk.io/errors"
+	sdkmath "cosmossdk.io/math"
 	cpckeeper "github.com/EscanBE/evermint/v12/x/cpc/keeper"
 	sdk "github.com/cosmos/cosmos-sdk/types"
+	authtypes "github.com/cosmos/cosmos-sdk/x/auth/types"
 
 	"github.com/ethereum/go-ethereum/common"
 	"github.com/ethereum/go-ethereum/core"
@@ -153,6 +155,23 @@ func (k *Keeper) ApplyTransaction(ctx sdk.Context, tx *ethtypes.Transaction) (*e
 
 	// reset the gas meter for current cosmos transaction
 	k.ResetGasMeterAndConsumeGas(ctx, res.GasUsed)
+
+	// The AnteHandle moved `gas limit * gas price` from the sender into the fee collector,
+	// then the state transition returned the fee of the unused gas to the sender by adding balance (which mints new coins).
+	// So the same amount must be taken out of the fee collector, otherwise the total supply grows on every refund.
+	if k.IsSenderPaidTxFeeInAnteHandle(ctx) && msg.Gas() > res.GasUsed {
+		refunded := new(big.Int).Mul(new(big.Int).SetUint64(msg.Gas()-res.GasUsed), msg.GasPrice())
+		if refunded.Sign() > 0 {
+			refundedCoins := sdk.NewCoins(sdk.NewCoin(cfg.Params.EvmDenom, sdkmath.NewIntFromBigInt(refunded)))
+			if err := k.bankKeeper.SendCoinsFromModuleToModule(ctx, authtypes.FeeCollectorName, evmtypes.ModuleName, refundedCoins); err != nil {
+				return nil, errorsmod.Wrap(err, "failed to take the refunded gas fee out of the fee collector")
+			}
+			if err := k.bankKeeper.BurnCoins(ctx, evmtypes.ModuleName, refundedCoins); err != nil {
+				return nil, errorsmod.Wrap(err, "failed to burn the refunded gas fee")
+			}
+		}
+	}
+
 	return res, nil
 }
 
